@@ -3,7 +3,7 @@ import itertools
 
 ID = 'C06'
 RULE = ('one case = 2-4 real nodes over loopback RPC; for every operation kind (put, del) and every subset S of the other nodes standing for the replicas the level selected (sizes 0..n-1: None, One, Two, Three, '
-        'quorum-sized, All), every subset of S is made unable to acknowledge (its next storage mutation fails), the write is issued through the real handle_consistency_distribution, and immediately afterwards '
+        'quorum-sized, All), every subset of S is made unable to acknowledge (its next storage mutation fails, or it has crashed and refuses connections while still selected), the write is issued through the real handle_consistency_distribution, and immediately afterwards '
         'Storage::get is called on the issuer and on every selected node. Checked: Ok => the document (or a newer record) is readable from the issuer and from EVERY selected node; otherwise the error is '
         'ConsistencyFailure{responses = number that acknowledged, required = |S|}, and the local write is in place. Also a prior newer write on a replica (will_apply = false => acknowledged without a storage call). '
         'non-trivial = at least one failing replica and at least one acknowledging one; distinct by hash. Selection of S for a level is C15\'s business.')
@@ -44,13 +44,14 @@ def generate(rng, tier):
                             newer = None
                             if S and rng.chance(1, 4):
                                 newer = rng.choice(S)   # this replica will later be overtaken? no: give it a NEWER record first
-                            for j in failing: lines.append('failnext %d' % j)
+                            # a failing replica either cannot store (storage error behind a live server) or has crashed (connection refused)
+                            for j in failing: lines.append(('failnext %d' if rng.chance(1, 2) else 'unreach %d') % j)
                             tg = ','.join(map(str, S)) or '-'
                             lines.append('%s 0 %s %d%s' % (kind, tg, doc_id, ' bb' if kind == 'wput' else ''))
                             lines.append('get 0 %d' % doc_id); lines.append('read 0')
                             for j in others:
                                 lines.append('get %d %d' % (j, doc_id)); lines.append('read %d' % j)
-                            for j in failing: lines.append('clearfail %d' % j)
+                            for j in failing: lines.append('clearfail %d' % j); lines.append('reach %d' % j)
                             lines.append('sel %s fail %s' % (tg, ','.join(map(str, failing)) or '-'))
                             lines.append('end'); cases.append(lines); idx += 1
     # random multi-step cases
@@ -61,13 +62,15 @@ def generate(rng, tier):
             i = rng.below(n)
             S = [j for j in range(n) if j != i and rng.chance(1, 2)]
             for j in S:
-                if rng.chance(1, 4): lines.append('failnext %d' % j)
+                k = rng.below(8)
+                if k < 2: lines.append('failnext %d' % j)
+                elif k == 2: lines.append('unreach %d' % j)     # crashed replica, still selected
             doc_id = rng.choice([1, 2])
             kind = rng.choice(['wput', 'wput', 'wdel'])
             lines.append('%s %d %s %d%s' % (kind, i, ','.join(map(str, S)) or '-', doc_id, ' %02x' % rng.below(256) if kind == 'wput' else ''))
             for j in range(n):
                 lines.append('get %d %d' % (j, doc_id)); lines.append('read %d' % j)
-            for j in range(n): lines.append('clearfail %d' % j)
+            for j in range(n): lines.append('clearfail %d' % j); lines.append('reach %d' % j)
         lines.append('end'); cases.append(lines); idx += 1
     return cases
 
@@ -124,7 +127,7 @@ def oracle(case, impl):
 
 
 def nontrivial(case, impl):
-    return any(o.startswith('consistency') and not o.startswith('consistency 0/') for o in impl) or any(l.startswith('failnext') for l in case)
+    return any(o.startswith('consistency') and not o.startswith('consistency 0/') for o in impl) or any(l.startswith(('failnext', 'unreach')) for l in case)
 
 
 def stats(verdicts):
@@ -136,4 +139,6 @@ def stats(verdicts):
                 lvl = 'replicas_%d' % (0 if l.split()[2] == '-' else len(l.split()[2].split(',')))
                 d[lvl] = d.get(lvl, 0) + 1
             elif l.startswith('get'): d['gets'] += 1
+            elif l.startswith('unreach'): d['replica_crashed'] = d.get('replica_crashed', 0) + 1
+            elif l.startswith('failnext'): d['replica_storage_failure'] = d.get('replica_storage_failure', 0) + 1
     return d
